@@ -352,6 +352,10 @@ def shard_generated(acc, shard, nshards, n_tuple, n_life):
     engine.hyp_run(acc, "lifetime", check_lifetime, lifetime_cases(), n_life, shard)
 
 
+# coverage-guided variants of the structured generators (thorough tier, pv/fuzz/target.py hyp:<name>)
+FUZZ = {"tuple": ("tuple", tuple_cases)}
+
+
 def run(acc, tier):
     if tier == "quick":
         engine.pmap(acc, shard_exhaustive, extra=(4,))
@@ -359,3 +363,4 @@ def run(acc, tier):
     else:
         engine.pmap(acc, shard_exhaustive, extra=(5,))
         engine.pmap(acc, shard_generated, extra=(5000, 600))
+        engine.fuzz(acc, "hyp:tuple", CHECKS, 3000, max_len=4096)
